@@ -330,3 +330,113 @@ Proof.
     + intros t' N. cbn [fst]. rewrite lookup_delete_ne by auto. reflexivity.
   - right. eexists. split; [|reflexivity]. unfold completed at 1. rewrite hfold_inv_res by eauto. reflexivity.
 Qed.
+
+Lemma HistOK_init n progs : HistOK (init_config n progs).
+Proof.
+  intros t. cbn. rewrite nth_error_map. unfold pend_of, hfold. cbn. rewrite lookup_empty.
+  destruct (nth_error progs t) as [p|]; [|reflexivity]. cbn. unfold next_call. cbn. destruct p; reflexivity.
+Qed.
+
+(* ================================================================== *)
+(* Part 1. insert-only programs                                       *)
+(* ================================================================== *)
+Definition io_call (c : call) : Prop :=
+  match c with CLoad i _ | CLoadOrStore i _ _ _ => i = 0%nat | _ => False end.
+
+Lemma io_flat c : io_call c -> flat_call c.
+Proof. destruct c; cbn; tauto. Qed.
+
+(* every allocated entry holds a value *)
+Definition all_val (s : mstate) : Prop :=
+  (forall e p, ents s !! e = Some p -> e < next_e s /\ exists v, p = PVal v) /\
+  (forall e, e < next_e s -> is_Some (ents s !! e)).
+
+(* what a step may do: allocate; entries never change; associations never go away *)
+Definition ext (s s' : mstate) : Prop :=
+  next_e s <= next_e s' /\
+  (forall e p, ents s !! e = Some p -> ents s' !! e = Some p) /\
+  (forall k e, reach_any s k e -> reach_any s' k e).
+
+(* key k is associated with an entry holding m *)
+Definition kval (s : mstate) (k m : Z) : Prop := exists e, reach_any s k e /\ ents s !! e = Some (PVal m).
+
+Lemma ext_refl s : ext s s.
+Proof. repeat split; auto. Qed.
+Lemma ext_trans a b c : ext a b -> ext b c -> ext a c.
+Proof. intros (A1 & A2 & A3) (B1 & B2 & B3). repeat split; eauto. lia. Qed.
+Lemma kval_ext s s' k m : ext s s' -> kval s k m -> kval s' k m.
+Proof. intros (_ & E2 & E3) (e & H1 & H2). exists e. eauto. Qed.
+
+Lemma get_ent_val s e v : get_ent s e = PVal v -> ents s !! e = Some (PVal v).
+Proof. unfold get_ent. destruct (ents s !! e); cbn; congruence. Qed.
+Lemma all_val_get s e : all_val s -> e < next_e s -> exists v, get_ent s e = PVal v /\ ents s !! e = Some (PVal v).
+Proof.
+  intros [H1 H2] He. destruct (H2 e He) as [p Hp]. destruct (H1 e p Hp) as [_ [v ->]].
+  exists v. unfold get_ent. rewrite Hp. auto.
+Qed.
+Lemma all_val_not_exp s e : all_val s -> e < next_e s -> is_exp s e = false.
+Proof. intros Ha He. destruct (all_val_get s e Ha He) as (v & Hv & _). unfold is_exp. rewrite Hv. reflexivity. Qed.
+
+(* the key -> entry association is functional *)
+Definition kfun (s : mstate) : Prop := forall k e1 e2, reach_any s k e1 -> reach_any s k e2 -> e1 = e2.
+
+Lemma kfun_WF_ad s : WF_ad s -> kfun s.
+Proof.
+  intros [Hcov _] k e1 e2 [H1|H1] [H2|H2]; try congruence; unfold dirty_lookup in *;
+    destruct (dirty s) as [d|] eqn:Hd; try discriminate.
+  - specialize (Hcov d k e1 eq_refl H1). rewrite H2 in Hcov. destruct (is_exp s e1); congruence.
+  - specialize (Hcov d k e2 eq_refl H2). rewrite H1 in Hcov. destruct (is_exp s e2); congruence.
+Qed.
+
+Lemma kfun_loop s rdm key done : loop_inv s rdm key done -> kfun s.
+Proof.
+  intros (_ & _ & _ & d & Hd & _ & L6) k e1 e2 [H1|H1] [H2|H2]; try congruence; unfold dirty_lookup in *; rewrite Hd in *.
+  - apply L6 in H2 as [_ H2]. congruence.
+  - apply L6 in H1 as [_ H1]. congruence.
+Qed.
+
+Lemma kfun_WFL s f : in_cs f = true -> WFL s f -> kfun s.
+Proof.
+  unfold in_cs, WFL. intros Hcs [_ H]. destruct (cs_class f); try discriminate.
+  - apply kfun_WF_ad, H.
+  - apply kfun_WF_ad, H.
+  - apply kfun_WF_ad, H.
+  - apply kfun_WF_ad, H.
+  - eapply kfun_loop, H.
+  - destruct H as (vis & _ & _ & _ & H). eapply kfun_loop, H.
+  - destruct H as [H _]. eapply kfun_loop, H.
+Qed.
+
+Lemma kval_fun s k m1 m2 : kfun s -> kval s k m1 -> kval s k m2 -> m1 = m2.
+Proof. intros Hf (e1 & A1 & A2) (e2 & B1 & B2). assert (e1 = e2) by eauto. subst. congruence. Qed.
+
+(* ---- the local invariant of a frame ---- *)
+Definition e_is_key (l : label) : bool :=
+  match l with E_load | Tlos_load1 | Tlos_cas | Tlos_load2 | Unexpunge_cas | Load_unlock | Miss_store => true | _ => false end.
+Definition los_known (f : frame) : bool :=
+  match f_pc f with
+  | LOS_unlock => true
+  | Miss_store => match f_call f with CLoadOrStore _ _ _ _ => true | _ => false end
+  | l => is_post_label l
+  end.
+(* stable under [ext]: holds for the frames of all threads *)
+Definition FI (s : mstate) (f : frame) : Prop :=
+  (e_is_key (f_pc f) = true -> forall e, f_e f = Some e -> reach_any s (key_of (f_call f)) e) /\
+  (los_known f = true -> kval s (key_of (f_call f)) (f_los f).1).
+(* for the lock holder only: missLocked is only reached with a dirty map *)
+Definition LH (s : mstate) (f : frame) : Prop :=
+  match f_pc f with
+  | Miss_store => dirty s <> None
+  | Tlos_load1 | Tlos_cas | Tlos_load2 => f_mode f = MLockedDirty -> dirty s <> None
+  | _ => True
+  end.
+
+Lemma FI_ext s s' f : ext s s' -> FI s f -> FI s' f.
+Proof. intros He [H1 H2]. pose proof He as (_ & _ & E3). split; eauto using kval_ext. Qed.
+
+Lemma FI_new s c : FI s (new_frame c).
+Proof. split; destruct c; discriminate. Qed.
+
+(* the result of a call, once it returns *)
+Definition res_val (s : mstate) (k : Z) (r : res) : Prop :=
+  match r with RLos m _ => kval s k m | ROpt (Some x) => kval s k x | _ => True end.
